@@ -79,7 +79,7 @@ def run_units(prop_id, units, tier, seed, jobs):
         time.sleep(0.05)
         still = []
         for u, p, conn, t0 in running:
-            hard = getattr(u, "hard_s", None) or (u.wall_s * 2.5 + 120)
+            hard = float(os.environ.get("VERIF_HARD_S", 0)) or getattr(u, "hard_s", None) or (u.wall_s * 2.5 + 120)
             if conn.poll():
                 try:
                     results.append(conn.recv())
